@@ -171,6 +171,25 @@ CHECKS = {
         "7 (quick) / 8 (thorough) with fingerprint merge audit.",
    technique="explicit-state BFS of the implementation with differential (before/after, turn-to-turn) oracles",
    ref="3/C11"),
+ "C14": dict(cat="model_checking",
+   text="Real OPP, PKONE and FAST Neuron platforms booted over emulated serial ports (the harness owns every byte and read "
+        "boundary). (A) Streams of valid frames under every splitting with <=2 (quick) / <=3 (thorough) cuts, single bytes and "
+        "uniform chunks: decoded messages, switch changes and final switch states against an independent reference decoder "
+        "(own CRC-8); every single-byte substitution / deletion / insertion / truncation / double substitution of a report, "
+        "followed by three valid reports, delivered whole, bytewise and cut at the damage: every switch change must be "
+        "justified by a well-formed frame contained in the bytes, the reader must survive and not spin, final states equal "
+        "the last valid report. (B) Explicit-state BFS (depth 5 / 7) over FAST command submissions (confirmed, unconfirmed, "
+        "confirmed with retries, real coil pulse), environment answers (confirmation, unrelated message, lost response) and "
+        "time; oracle at the serial write seam: no write while a confirmation is awaited, FIFO order, lost responses "
+        "re-sent as configured, nothing blocked for ever. Known findings are explored past.",
+   note="Trusted: emulated serial port (mc/serial.py), boot-handshake board emulators (props/c14_boards.py), reference decoders and "
+        "CRC-8 in props/c14.py. For FAST and PKONE (no checksum) 'malformed' means outside the frame grammar. Resynchronisation is "
+        "judged after three valid reports. Corruptions are single faults plus adjacent double substitutions and one burst; "
+        "flow control: at most three submitted commands per history. Three known findings (FAST writer never pauses, lost "
+        "response never retried, undecodable byte fatal) are printed as KNOWN-FINDING.",
+   technique="exhaustive enumeration of read splittings and single-fault corruptions on the real decoders + explicit-state BFS of "
+             "the real FAST writer with environment-chosen responses",
+   ref="3/C14"),
  "C15": dict(cat="fault_enumeration",
    text="Stateless preemption-bounded exploration of the real DataManager/FileManager/YamlInterface: writer thread(s) and "
         "ten main-thread scripts (save_all / wait / shutdown, one or two managers, waits chosen to collide with the 1 s "
